@@ -105,6 +105,14 @@ class World(object):
         if c == "nel" and enc == "cp1252":
             enc = "latin-1"         # U+0085 has no cp1252 encoding
         kw = dict(OPTS[opt])
+        try:
+            return self._read(e, c, ch, enc, nl, opt, kw)
+        except Exception as x:       # a read that fails is an observation (it cannot equal the pristine result)
+            self.objs.append(lasio.LASFile())
+            return {"op": "read", "c": c, "opt": opt, "ch": ch, "enc": enc, "nl": nl, "digest": "EXC:" + type(x).__name__,
+                    "nonascii_ok": False, "live": self.live()}
+
+    def _read(self, e, c, ch, enc, nl, opt, kw):
         if ch in ("StringIO", "string"):
             if nl == "CR":
                 nl = "LF"           # CR-only line ends are claimed for files only
